@@ -77,7 +77,25 @@ def fanout_program(rng):
     return {'objects': gen.objects, 'roots': roots, 'start': 0, 'till': None}
 
 
+D15_CANARY = {
+    'objects': {}, 'start': 0, 'till': None,
+    'roots': [{'name': 'r0', 'steps': [
+        {'op': 'scope', 'id': 's1', 'n': None, 'catch': False, 'body': [], 'children': [
+            {'name': 't1', 'volatile': False, 'steps': [
+                {'op': 'first', 'id': 's2', 'count': None, 'catch': False,
+                 'acts': [{'name': 'c1', 'steps': [], 'result': 'v1'},
+                          {'name': 'c2', 'steps': [
+                              {'op': 'wait', 'n': {'k': 'delay', 'd': 1}, 'id': 's3'},
+                              {'op': 'raise', 'kind': 'key', 'tag': 'e1', 'id': 's4'}]}],
+                 'body': [{'op': 'wait', 'n': {'k': 'delay', 'd': 2}, 'id': 's5'}]}]}]}]}],
+}
+
+
 def build(seed, index):
+    if index < 0:
+        # fixed program in which known finding D15 strikes (see C03): its consequence - the
+        # enclosing scope builds Concurrent(<CancelScope>) and trips an assertion - depends on -O
+        return D15_CANARY
     rng = random.Random('%s/%s/c02' % (seed, index))
     if rng.random() < 0.4:
         return fanout_program(rng)
